@@ -29,7 +29,7 @@ TRUSTED = [
   'the tokenizer of this check (validated on every name by render(tokenise(s)) == s and against the Lean `render`)',
 ]
 ASSUMPTIONS = [
-  'every NamedObject is stored in exactly one slot (no aliasing of one object under two names); lists hold only NamedObjects, lists or None placeholders (None at any position, element 0 of the outermost list included since fix: c7238e1)',
+  'an object bound under a second attribute is named by its LAST binding (clean rule); generated for leaf objects and lists of leaf objects only, where this equals the description with the object constructed at the last binding (a whole interface / a signal that already has field or slice children keeps its children named through the old path and is not generated; a whole component is rejected by elaborate()); lists hold only NamedObjects, lists or None placeholders (None at any position, element 0 of the outermost list included since fix: c7238e1)',
   'slot / field names are Python identifiers that do not shadow attributes of Component / Interface / Signal; a component is never stored inside an interface (needed only for level = number of component prefixes)',
   'a repeated slot name is a FieldReassignError in the real code; the model reports the same error and otherwise keeps the first binding',
 ]
@@ -39,7 +39,9 @@ RULE = ('random construction description: component tree 1-4 deep, slots holding
         'signals with list fields and nested structs, 0-12 access expressions (field, list-field index, slice, int '
         'index, slice of slice, slice of slice of slice) evaluated inside construct and after elaborate; then 0-3 '
         'top.add_value_port(parent, name, port) on components and interfaces at any depth (also in lists), some followed by '
-        'top.add_connection, and the whole property re-checked; '
+        'top.add_connection, and the whole property re-checked; in half of the cases 1-4 aliasing re-assignments inside construct '
+        '(an already named leaf object or list of leaf objects of the sub-hierarchy, or of the owner itself, bound again under a '
+        'new attribute of a component / interface) plus accesses through the old paths; '
         'non-trivial = has a list slot or a lazily created signal; distinct = distinct canonical description')
 
 # ------------------------------------------------------------------------------------------------
@@ -202,16 +204,127 @@ def gen_case(rng, big=False):
   if rng.random() < 0.06:
     kind = 'dup'
     inject_dup(rng, top)
-  sigs = static_signals(top)
+  final, acc_old = top, []
+  if kind == 'ok' and rng.random() < 0.5:
+    top, final, acc_old = gen_aliases(rng, top)
+  sigs = static_signals(final)
   accs_c, accs_p = [], []
   if kind == 'ok' and sigs:
     for _ in range(rng.randint(0, 8)): accs_c.append(gen_access(rng, sigs))
     for _ in range(rng.randint(0, 5)): accs_p.append(gen_access(rng, sigs))
-  case = {'desc': top, 'acc_construct': accs_c, 'acc_post': accs_p, 'kind': kind, 'adds': [], 'acc_added': []}
+  case = {'desc': top, 'acc_construct': accs_c, 'acc_post': accs_p, 'kind': kind, 'adds': [], 'acc_added': [], 'acc_old': []}
   if kind == 'ok':
-    case['adds'] = gen_adds(rng, top)
+    case['adds'] = gen_adds(rng, final)
     case['acc_added'] = gen_after_add_accesses(rng, case)
+    if final is not top:
+      case['desc_final'] = final
+      case['acc_old'] = acc_old
   return case
+
+def final_desc(case):
+  """the description the hierarchy is equivalent to once the aliasing re-assignments have run"""
+  return case.get('desc_final', case['desc'])
+
+def is_leaf_list(sv):
+  # a hole left by an earlier element alias still holds the object in the real list: binding that list again
+  # would rename the element back (last binding wins) -- such lists are not picked as sources
+  if sv[0] == 'hole': return len(sv) == 1
+  if sv[0] == 'one': return sv[1][0] in ('sig', 'mport')
+  return all(is_leaf_list(x) for x in sv[1])
+
+def has_leaf(sv):
+  if sv[0] == 'hole': return False
+  if sv[0] == 'one': return True
+  return any(has_leaf(x) for x in sv[1])
+
+def gen_aliases(rng, top):
+  """ALIASING re-assignments inside construct: after a component / interface has built its slots it stores a
+  reference to an already named LEAF object of its sub-hierarchy (a child's port / wire, an interface port, a list
+  element, a method port, at any depth; or an object of its own: same-owner second reference), or to a whole list
+  of leaf objects, under a new attribute name of its own.
+  What the clean code does: the setattr hook runs again, so the object is renamed completely by its LAST binding
+  (name, parent, level move together; the old attribute still reaches it but is no longer its name).  For leaf
+  objects the resulting hierarchy is exactly the one built by the description in which the object is constructed
+  at its last binding and its earlier slots are left as nameless references (a private attribute / a None hole in
+  the list) -- `final`, which is what the model elaborates.
+  Not generated (see report): a whole component (elaboration rejects it: clk/reset net checks), a whole interface
+  or a signal that already has field / slice children (the children keep their names through the old path, so
+  repr(child) no longer starts with repr(parent) and, for an owner in another component, get_host_component() of
+  the children disagrees with their names on the clean tree).
+  Returns (top annotated with the alias statements, final description, old-path accesses)."""
+  top = json.loads(json.dumps(top))            # un-share the prototypes of regular arrays
+  nsteps = rng.choice([0, 0, 1, 1, 2, 3, 4])
+  if nsteps == 0: return top, top, []
+  cur = json.loads(json.dumps(top))
+  moves, used = [], {}
+  for _ in range(nsteps):
+    owners = [x for x in static_nodes(cur) if not (len(x[1]) == 3 and isinstance(x[1][2], str))]
+    otoks, onode = rng.choice(owners) if rng.random() < 0.6 else owners[0]
+    # sources: leaf objects and whole leaf lists below the owner, by their CURRENT name relative to the owner
+    srcs = []
+    def node(n, rel, depth):
+      if n[0] not in ('comp', 'ifc'): return
+      seen = set()
+      for idx, (nm, sv) in enumerate(n[1]):
+        if nm in seen or nm.startswith('_'): continue
+        seen.add(nm)
+        if sv[0] == 'many' and is_leaf_list(sv) and has_leaf(sv): srcs.append(('list', rel + [['a', nm]], n, idx))
+        sval(sv, rel + [['a', nm]], n, idx, None, depth)
+    def sval(sv, rel, n, idx, holder, depth):
+      if sv[0] == 'hole': return
+      if sv[0] == 'one':
+        if sv[1][0] in ('sig', 'mport'): srcs.append(('leaf', rel, n, idx, holder))
+        else: node(sv[1], rel, depth + 1)
+      else:
+        for i, x in enumerate(sv[1]): sval(x, rel + [['i', i]], n, idx, (sv, i), depth)
+    node(onode, [], 0)
+    if not srcs: continue
+    deep = [x for x in srcs if len([t for t in x[1] if t[0] == 'a']) > 1]
+    src = rng.choice(deep) if deep and rng.random() < 0.7 else rng.choice(srcs)
+    key = render(otoks)
+    taken = used.setdefault(key, {nm.lstrip('_') for nm, _ in onode[1]} | {'clk', 'reset', 'method'})
+    free = [x for x in NAMES + ['alias', 'first', 'tap'] if x not in taken]
+    if not free: continue
+    new = rng.choice(free); taken.add(new)
+    rel, holder_node, idx = src[1], src[2], src[3]
+    if src[0] == 'list' or src[4] is None:
+      # the whole slot moves: the old attribute stays as a nameless reference
+      nm, sv = holder_node[1][idx]
+      holder_node[1][idx] = ['_' + nm, sv]
+      used.setdefault(None, set())
+      moved = sv
+    else:
+      lst, i = src[4]
+      moved = lst[1][i]
+      lst[1][i] = ['hole', 'moved']
+    onode[1].append([new, moved])
+    ann = find_node(top, otoks)
+    if len(ann) == 2: ann.append({'alias': []})
+    ann[2]['alias'].append([new, rel])
+    moves.append((otoks + rel, otoks + [['a', new]]))
+  if not moves: return top, top, []
+  # accesses through an OLD path of a re-bound object: they must evaluate to the object named by the last binding
+  acc_old = []
+  for k, (old, new) in enumerate(moves):
+    if rng.random() < 0.6:
+      path = new
+      for o2, n2 in moves[k + 1:]:
+        if path[:len(o2)] == o2: path = n2 + path[len(o2):]
+      try:
+        v = ['one', cur]
+        for t in path: v = next(sv for nm, sv in v[1][1] if nm == t[1]) if t[0] == 'a' else v[1][t[1]]
+      except (StopIteration, IndexError, TypeError):
+        continue
+      extra = []
+      while v[0] == 'many':
+        cands = [i for i, x in enumerate(v[1]) if has_leaf(x)]
+        if not cands: break
+        i = rng.choice(cands); extra.append(['i', i]); v = v[1][i]
+      if v[0] != 'one': continue
+      if v[1][0] == 'sig' and v[1][2][0] == 'bits' and rng.random() < 0.5:
+        n = v[1][2][1]; lo = rng.randrange(n); extra.append(['s', lo, rng.randint(lo + 1, n)])
+      acc_old.append({'real': old + extra, 'model': path + extra})
+  return top, cur, acc_old
 
 def static_nodes(top):
   """[(tokens, node)] of the components / interfaces that get a name (generator bookkeeping)"""
@@ -301,7 +414,7 @@ def walk_sval(sv, f):
 
 def inject_dup(rng, top):
   nodes = []
-  walk_nodes(top, lambda n: nodes.append(n) if n[0] in ('comp', 'ifc') and len(n) == 2 else None)
+  walk_nodes(top, lambda n: nodes.append(n) if n[0] in ('comp', 'ifc') and not (len(n) == 3 and isinstance(n[2], str)) else None)
   n = rng.choice(nodes)
   if n[0] == 'comp' and rng.random() < 0.4:
     n[1].insert(rng.randint(0, len(n[1])), [rng.choice(['clk', 'reset']), ['one', ['sig', 'in', ['bits', 1]]]])
@@ -431,7 +544,7 @@ class Emitter:
       return {'wire': 'Wire', 'in': 'InPort', 'out': 'OutPort'}[n[1]] + f'( {self.ty_expr(n[2])} )'
     if n[0] == 'mport':
       return 'CallerPort()' if n[1] == 'caller' else 'CalleePort()'
-    if len(n) == 3: return f'{n[2]}()'
+    if len(n) == 3 and isinstance(n[2], str): return f'{n[2]}()'
     return self.cls(n) + '()'
 
   def sval_expr(self, sv):
@@ -447,8 +560,10 @@ class Emitter:
     if accesses is None: self.classes[key] = name
     self.lines.append(f'class {name}( {"Component" if n[0] == "comp" else "Interface"} ):')
     self.lines.append('  def construct( s ):')
-    if not body and not accesses: self.lines.append('    pass')
+    aliases = n[2]['alias'] if len(n) == 3 and isinstance(n[2], dict) else []
+    if not body and not accesses and not aliases: self.lines.append('    pass')
     for nm, e in body: self.lines.append(f'    s.{nm} = {e}')
+    for nm, rel in aliases: self.lines.append(f'    s.{nm} = {render(rel)}')      # a second binding of an already named object
     for a in accesses or []: self.lines.append(f'    {render(a)}')
     self.lines.append('')
     return name
@@ -599,7 +714,7 @@ def run_real(ck, case, modname):
   res['names2'] = sorted(repr(o) for o in top2.get_all_object_filter(lambda x: True))
   # explicit accesses after elaboration
   post = []
-  for a in case['acc_post']:
+  for a in case['acc_post'] + [a['real'] for a in case.get('acc_old', [])]:
     post.append(eval(render(a), {'s': top}))
   objs2 = top._collect_all_single()
   res['post'] = post
@@ -623,23 +738,24 @@ def run_real(ck, case, modname):
   return res
 
 def model_lines(case):
-  d = enc_node(case['desc'])
+  d = enc_node(final_desc(case))
   l1 = leanio.line('hier', 'elab', d, [enc_toks(a) for a in case['acc_construct']])
-  l2 = leanio.line('hier', 'elab', d, [enc_toks(a) for a in case['acc_construct'] + case['acc_post']])
+  old_m = [a['model'] for a in case.get('acc_old', [])]
+  l2 = leanio.line('hier', 'elab', d, [enc_toks(a) for a in case['acc_construct'] + case['acc_post'] + old_m])
   ls = [l1, l2]
-  for a in case['acc_construct'] + case['acc_post']:
+  for a in case['acc_construct'] + case['acc_post'] + old_m:
     ls.append(leanio.line('hier', 'resolve', d, enc_toks(a)))
   for a in case.get('bad_exprs', []):
     ls.append(leanio.line('hier', 'resolve', d, enc_toks(a)))
   if case.get('adds'):
-    d3 = enc_node(apply_adds(case['desc'], case['adds']))
-    ls.append(leanio.line('hier', 'elab', d3, [enc_toks(a) for a in case['acc_construct'] + case['acc_post'] + case.get('acc_added', [])]))
+    d3 = enc_node(apply_adds(final_desc(case), case['adds']))
+    ls.append(leanio.line('hier', 'elab', d3, [enc_toks(a) for a in case['acc_construct'] + case['acc_post'] + old_m + case.get('acc_added', [])]))
   return ls
 
 def gen_bad_exprs(rng, case):
   """expressions that must raise on the real side and be `none` in the model (evaluated last)"""
   out = []
-  sigs = static_signals(case['desc'])
+  sigs = static_signals(final_desc(case))
   if not sigs: return out
   for _ in range(rng.randint(0, 3)):
     toks, ty = rng.choice(sigs)
@@ -693,7 +809,7 @@ def compare(ck, case, real, replies, verbose=False):
         dis('Model/Hier render≈tokens', m[nm][7], tokenise(nm)); break
   # expressions: canonical name of what they evaluate to
   top = real['top']
-  exprs = case['acc_construct'] + case['acc_post']
+  exprs = case['acc_construct'] + case['acc_post'] + [a['real'] for a in case.get('acc_old', [])]
   for a, rep in zip(exprs, replies[2:2 + len(exprs)]):
     o = eval(render(a), {'s': top})
     want = f'ok {o!r} 1'
@@ -711,7 +827,7 @@ def check_expr_identity(ck, case, real):
   canonical name evaluates to, and evaluating it twice gives the same object (caching)"""
   top = real['top']
   ok = True
-  for a in case['acc_construct'] + case['acc_post']:
+  for a in case['acc_construct'] + case['acc_post'] + [a['real'] for a in case.get('acc_old', [])]:
     e = render(a)
     o1 = eval(e, {'s': top}); o2 = eval(e, {'s': top})
     o3 = eval(repr(o1), {'s': top})
@@ -777,7 +893,7 @@ def stats(ck, case, real):
     if n[0] in ('comp', 'ifc'):
       for _, sv in n[1]:
         if sv[0] == 'many': has_list[0] = True
-  walk_nodes(case['desc'], scan)
+  walk_nodes(final_desc(case), scan)
   lazy = 0
   if 'error' not in real:
     n = len(real['recs2'])
@@ -788,15 +904,43 @@ def stats(ck, case, real):
     ck.hist('name_depth', depth)
     ck.hist('slices', sum(1 for v in real['recs2'].values() if v[6] != '-') and 'some' or 'none')
   ck.hist('kind', case['kind'] if 'error' not in real else 'error:' + real['error'])
+  def count_alias(n):
+    if len(n) == 3 and isinstance(n[2], dict):
+      for nm, rel in n[2]['alias']:
+        d = len([t for t in rel if t[0] == 'a'])
+        ck.hist('alias', f"{n[0]} owner, source {'own slot' if d == 1 else 'depth ' + str(d)}{' (list element)' if rel[-1][0] == 'i' else ''}")
+  walk_nodes(case['desc'], count_alias)
   for a in case.get('adds', []):
-    pk = find_node(case['desc'], a['parent'])[0]
+    pk = find_node(final_desc(case), a['parent'])[0]
     ck.hist('add_value_port', f"{pk} depth {len([t for t in a['parent'] if t[0] == 'a'])}{' in list' if any(t[0] == 'i' for t in a['parent']) else ''}"
                               f"{' +add_connection' if a['connect'] else ''}")
   return has_list[0] or lazy > 0 or 'error' in real
 
+def _alias_corpus_case():
+  """the demo scenario of the aliasing family: a parent binds a child's port, a port of an interface of a grandchild in
+  a list, an element of a grandchild's wire list, and one of its own list elements (same owner) under new names"""
+  w8 = lambda: ['one', ['sig', 'wire', ['bits', 8]]]
+  ifc = lambda val: ['ifc', [[val, ['one', ['sig', 'out', ['bits', 1]]]], ['msg', ['one', ['sig', 'out', ['bits', 8]]]]]]
+  D = lambda w1, val: ['comp', [['w', ['many', [w8(), w1]]], ['ifc', ['one', ifc(val)]]]]
+  C = lambda d0, d1, out: ['comp', [['d', ['many', [['one', d0], ['one', d1]]]], [out, ['one', ['sig', 'out', ['bits', 8]]]]]]
+  orig = ['comp', [['c', ['one', C(D(w8(), 'val'), D(w8(), 'val'), 'out')]], ['ports', ['many', [w8(), w8()]]]],
+          {'alias': [['c_out', [['a', 'c'], ['a', 'out']]],
+                     ['d1_val', [['a', 'c'], ['a', 'd'], ['i', 1], ['a', 'ifc'], ['a', 'val']]],
+                     ['d0_w1', [['a', 'c'], ['a', 'd'], ['i', 0], ['a', 'w'], ['i', 1]]],
+                     ['first', [['a', 'ports'], ['i', 0]]]]}]
+  final = ['comp', [['c', ['one', C(D(['hole'], 'val'), D(w8(), '_val'), '_out')]], ['ports', ['many', [['hole'], w8()]]],
+                    ['c_out', ['one', ['sig', 'out', ['bits', 8]]]], ['d1_val', ['one', ['sig', 'out', ['bits', 1]]]],
+                    ['d0_w1', w8()], ['first', w8()]]]
+  return {'desc': orig, 'desc_final': final, 'acc_construct': [[['a', 'c_out'], ['s', 0, 4]]], 'acc_post': [[['a', 'first'], ['i', 7]]],
+          'acc_old': [{'real': [['a', 'c'], ['a', 'out'], ['s', 2, 6]], 'model': [['a', 'c_out'], ['s', 2, 6]]},
+                      {'real': [['a', 'c'], ['a', 'd'], ['i', 1], ['a', 'ifc'], ['a', 'val']], 'model': [['a', 'd1_val']]},
+                      {'real': [['a', 'ports'], ['i', 0]], 'model': [['a', 'first']]}],
+          'adds': [], 'acc_added': [], 'kind': 'ok'}
+
 _LEAF = ['comp', [['w', ['one', ['sig', 'wire', ['bits', 8]]]], ['out', ['one', ['ifc', [['msg', ['one', ['sig', 'out', ['bits', 8]]]]]]]]]]
 
 CORPUS = [
+  _alias_corpus_case(),
   # post-elaboration mutation: a debug port added to an INTERFACE of a sub-component that lives in a list, then connected
   # to a wire of that sub-component (its host component is the sub-component, not the interface); one added to the top
   {'desc': ['comp', [['mid', ['one', ['comp', [['leaves', ['many', [['one', _LEAF], ['one', _LEAF]]]]]]]]]],
